@@ -240,8 +240,7 @@ func init() {
 		p := fr.i.path
 		d := unbox(args[1], "*badger.DB").(*kvDB)
 		w := []kvWrite{mkWrite(keyBytes(args[2]), cloneBytes(args[3]), false)}
-		d.disk.version++
-		d.disk.ents = p.applyWritesV(d.disk.ents, w, d.disk.version)
+		d.disk.apply(p, w)
 		p.env.effects = append(p.env.effects, effect{kind: "kv", disk: d.disk, writes: w})
 		return nil
 	})
@@ -250,7 +249,7 @@ func init() {
 		file := concStr(args[1], "backup file")
 		dir := concStr(args[2], "restore dir")
 		d := p.env.disk(dir)
-		d.ents, d.version = nil, 0
+		d.reset()
 		p.env.fsMkdir(dir)
 		pf, _ := p.env.files[file].(*payloadFile)
 		if pf == nil {
@@ -261,12 +260,15 @@ func init() {
 			if !ok {
 				continue
 			}
+			// (a key deleted and written again since the cursor is live: markers first)
 			var ws []kvWrite
+			for _, e := range bp.tombs {
+				ws = append(ws, mkWrite(e.key, nil, true))
+			}
 			for _, e := range bp.ents {
 				ws = append(ws, mkWrite(e.key, e.val, false))
 			}
-			d.version++
-			d.ents = p.applyWritesV(d.ents, ws, d.version)
+			d.apply(p, ws)
 		}
 		return nil
 	})
